@@ -162,6 +162,8 @@ type c08 struct {
 	nAmb  int
 	nCase  int
 	nEntry int
+	d16    bool // the library showed exactly the known D16 behaviour at U+00C7 / U+00E7 / septet 9 (section 1)
+	mute   bool // no model cases from the Transformer / entry point checks of the next input (direct tests only)
 	xl    int  // for the next text: 0 no direct Transform calls, 2 a selection of destination sizes, 3 every size
 	ent   bool // for the next text: also String / Writer / Reader / a long-lived object
 }
@@ -191,6 +193,25 @@ func (c *c08) text(rs []rune, bucket string, level int) {
 		if isD16(x) {
 			hasD16 = true
 		}
+	}
+	if hasD16 && c.d16 {
+		// D16 is a known finding judged at the single character; inside longer texts the packing, round trip and
+		// detector clauses are judged with the library's choice at that one slot (U+00E7 <-> 0x09, U+00C7 refused)
+		want, accepted = nil, true
+		for _, x := range rs {
+			switch sp, ok := stdSeptets[x]; {
+			case x == 0xE7:
+				want = append(want, 9)
+			case x == 0xC7 || !ok:
+				accepted = false
+			default:
+				want = append(want, sp...)
+			}
+		}
+		if !accepted {
+			want = nil
+		}
+		hasD16 = false
 	}
 	n := len(want)
 	endsCR := len(rs) > 0 && rs[len(rs)-1] == '\r'
@@ -227,6 +248,14 @@ func (c *c08) text(rs []rune, bucket string, level int) {
 	if !hasD16 && (e.cls == 0) != valid && e.cls != 2 {
 		r.Fail("detector/disagrees-with-encoder", "GSM7BitCoding.Validate and the encoder disagree", in,
 			fmt.Sprintf("Validate=%v encoder class=%d", valid, e.cls), "Validate true exactly when the encoder accepts")
+	}
+	if !hasD16 && e.cls != 2 {
+		// the detector as callers use it: BestCoding / BestSafeCoding pick GSM 7-bit exactly when the encoder accepts
+		best, safe := coding.BestCoding(s) == coding.GSM7BitCoding, coding.BestSafeCoding(s) == coding.GSM7BitCoding
+		if best != (e.cls == 0) || safe != (e.cls == 0) {
+			r.Fail("detector/BestCoding-disagrees-with-encoder", "BestCoding / BestSafeCoding classify the text as GSM 7-bit but the encoder refuses it, or the reverse", in,
+				fmt.Sprintf("BestCoding is GSM7=%v BestSafeCoding is GSM7=%v encoder class=%d", best, safe, e.cls), "GSM 7-bit exactly when the encoder accepts")
+		}
 	}
 	if e.cls == 0 && accepted && !hasD16 {
 		// exact packing
@@ -274,14 +303,6 @@ func (c *c08) text(rs []rune, bucket string, level int) {
 	} else if e.cls == 0 {
 		dcls, drs = g7Decode(e.out)
 	}
-	if !emit {
-		return
-	}
-	c.nCase++
-	r.Case("text "+in, fmt.Sprintf("text_case %s %d %s %d %s %s", coqRunes(rs), e.cls, coqHex(e.out), dcls, coqRunes(drs), coqBool(valid)))
-	if len(r.Samples) < 6 && len(rs) > 2 && accepted {
-		r.Sample(map[string]interface{}{"text": s, "septets": n, "octets": fmt.Sprintf("%x", e.out), "decoded": string(drs), "ambiguous": amb})
-	}
 	// the Transformer contract and the other entry points of the same objects
 	if c.xl > 0 && !hasD16 {
 		c.xfEnc(s, e, in, c.xl)
@@ -309,6 +330,17 @@ func (c *c08) text(rs []rune, bucket string, level int) {
 			text := []byte(string(drs))
 			c.entries("dec", e.out, g7Entry{dcls, text, ""}, in+fmt.Sprintf(" octets %x", g7clip(e.out)), true, c.judgeDecEntry(in+fmt.Sprintf(" octets %x", g7clip(e.out)), e.out, dcls, text))
 		}
+	}
+	if !emit {
+		return
+	}
+	c.nCase++
+	r.Case("text "+in, fmt.Sprintf("text_case %s %d %s %d %s %s", coqRunes(rs), e.cls, coqHex(e.out), dcls, coqRunes(drs), coqBool(valid)))
+	if len(r.Samples) < 6 && len(rs) > 2 && accepted {
+		r.Sample(map[string]interface{}{"text": s, "septets": n, "octets": fmt.Sprintf("%x", e.out), "decoded": string(drs), "ambiguous": amb})
+	}
+	if c.mute {
+		return
 	}
 	// destination capacities, including the exact fit that exposed D14
 	if e.cls != 0 || (amb && len(e.out) != (7*n+7)/8) {
@@ -374,7 +406,7 @@ func (c *c08) text(rs []rune, bucket string, level int) {
 			r.Fail("decode/cuts-inside-character", "decoder output is not valid UTF-8", in, fmt.Sprintf("%x", out), "valid UTF-8")
 		}
 		r.Case(fmt.Sprintf("dec_transform cap=%d %s", cp, in),
-			fmt.Sprintf("cap_obs_ok beq_runes (dec_transform %d%%nat %s) %d %s", cp, coqHex(e.out), cls, coqRunes(runesOf(string(out)))))
+			fmt.Sprintf("dcap_obs_ok %d%%nat %s %d %s", cp, coqHex(e.out), cls, coqRunes(runesOf(string(out)))))
 	}
 }
 
@@ -530,7 +562,7 @@ func corrC08(r *Run) {
 	c := &c08{r: r, seen: map[string]bool{}}
 
 	// ---- 1. alphabet, exhaustive over the scalar values (direct test; the theorem is about Gen/Gsm7Tables.v)
-	nAcc := 0
+	nAcc, nD16 := 0, 0
 	for x := rune(0); x <= 0x10FFFF; x++ {
 		if x >= 0xD800 && x <= 0xDFFF {
 			continue
@@ -548,6 +580,7 @@ func corrC08(r *Run) {
 			d16 := (x == 0xC7 && b.cls == 1 && !b.validate) || (x == 0xE7 && b.cls == 0 && bytes.Equal(b.septets, []byte{9}) && b.validate)
 			conforming := (x == 0xC7 && b.cls == 0 && bytes.Equal(b.septets, []byte{9}) && b.validate) || (x == 0xE7 && b.cls == 1 && !b.validate)
 			if d16 {
+				nD16++
 				r.Fail(d16Class, "septet 0x09 is U+00E7 (c with cedilla, small) where GSM 03.38 has U+00C7 (capital)", in,
 					fmt.Sprintf("class=%d septets=%x validate=%v", b.cls, b.septets, b.validate), "U+00C7 <-> 0x09, U+00E7 refused")
 			} else if !conforming {
@@ -570,6 +603,7 @@ func corrC08(r *Run) {
 				fmt.Sprintf("Validate=%v encoder class=%d", b.validate, b.cls), "equal")
 		}
 	}
+	c.d16 = nD16 == 2
 	r.Hist["single scalar values swept"] = 1112064
 	r.Hist["single scalar values accepted"] = nAcc
 	for i := 0; i < 137; i++ {
@@ -769,6 +803,25 @@ func corrC08(r *Run) {
 		c.text([]rune(s2), "hand-picked rewritable sequences", 2)
 	}
 
+	// ---- 4d. packed output LONGER than the UTF-8 source (more than one extension character in seven, no two-octet
+	//      character): transform.Bytes starts with len(src) octets of room and has to come back with more
+	for ne := 1; ne <= r.N(12, 40); ne++ {
+		for _, na := range []int{0, 1, 5} {
+			if na > ne*6 {
+				continue
+			}
+			t := make([]rune, 0, ne+na)
+			for i := 0; i < ne; i++ {
+				t = append(t, []rune("[]{}|~^\\\f")[(i+ne)%9])
+				if i < na {
+					t = append(t, filler[i])
+				}
+			}
+			c.textX(t, "output longer than the source (grow path of transform.Bytes)", 2, 2*b2i(ne%3 == 0), ne%4 == 0)
+			c.text(append(t, '\r'), "output longer than the source (grow path of transform.Bytes)", 1)
+		}
+	}
+
 	// ---- 5. random texts over the 137 characters (CR / ESC / '@' heavy at the end), some with a foreign character
 	nr := r.N(400, 6000)
 	for i := 0; i < nr; i++ {
@@ -791,8 +844,11 @@ func corrC08(r *Run) {
 			default:
 				t[j] = stdRepertoire[r.Rng.Intn(len(stdRepertoire))]
 			}
-			if t[j] == 0xC7 { // D16 has its own test
+			if t[j] == 0xC7 { // D16 has its own test; inside texts slot 9 is exercised with the library's choice
 				t[j] = 'C'
+				if c.d16 {
+					t[j] = 0xE7
+				}
 			}
 		}
 		bucket := "random over the repertoire"
@@ -801,7 +857,23 @@ func corrC08(r *Run) {
 			t[r.Rng.Intn(ln)] = foreign[r.Rng.Intn(len(foreign))]
 			bucket = "random with one foreign character"
 		}
+		c.mute = ln > 300
 		c.textX(t, bucket, 2, 2*b2i(i%4 == 1 || ln > 200), i%3 == 0 || ln > 200)
+		c.mute = false
+	}
+	// very long texts, direct tests only (index and length arithmetic beyond 255 / 4096 / 65535 octets of output,
+	// beyond the 4096-octet buffers of transform.Reader / Writer)
+	for _, ln := range []int{4700, 9400, 75000} {
+		t := make([]rune, ln)
+		for j := range t {
+			t[j] = stdRepertoire[(j*31+r.Rng.Intn(7))%len(stdRepertoire)]
+			if t[j] == 0xC7 {
+				t[j] = 'C'
+			}
+		}
+		c.mute = true
+		c.textX(t, "very long texts (direct tests only)", 0, 2, true)
+		c.mute = false
 	}
 	// ---- 5b. source octets that are not (or only just) UTF-8: every ill-formed shape of the Unicode standard's
 	//      table 3-7 (lone continuation, truncated 2/3/4-octet sequence, overlong, surrogate, beyond U+10FFFF,
@@ -830,6 +902,9 @@ func corrC08(r *Run) {
 		}
 		c.raw(b, "source octets: random, mostly ASCII")
 	}
+
+	// ---- 5c. state across calls on one object
+	c.histories()
 
 	// ---- 6. arbitrary octets for the decoder
 	for b := 0; b < 256; b++ {
